@@ -558,6 +558,10 @@ func (fc *funcContext) varPtrName(o *types.Var) string {
 	// package level, once for all functions.
 	if !isPkgLevel(o) && !containsString(fc.localVars, name) {
 		fc.localVars = append(fc.localVars, name)
+		if fc.allVars[name] == 0 {
+			// Keep newVariable from handing out the same (minified) name again.
+			fc.allVars[name] = 1
+		}
 	}
 	return name
 }
